@@ -376,6 +376,9 @@ class SBytes(_BytesBase):
     def __init__(self, items):
         self.items = items
 
+    def __deepcopy__(self, memo):
+        return self  # immutable
+
 
 class SByteArray(_BytesBase):
     """Mutable; always a proxy (even when its content is concrete)."""
@@ -439,6 +442,9 @@ class SByteArray(_BytesBase):
         self.items.insert(conc_index(i), byte_item(v))
 
     def copy(self):
+        return SByteArray(self.items)
+
+    def __deepcopy__(self, memo):
         return SByteArray(self.items)
 
     __hash__ = None
@@ -579,6 +585,9 @@ class SSet:
         s = SSet()
         s.members = list(self.members)
         return s
+
+    def __deepcopy__(self, memo):
+        return self.copy()
 
     def clear(self):
         self.members = []
